@@ -267,6 +267,38 @@ NOSAN static void task_exit_to_sched(void) {
 
 static void proc_exit(SimProc *p, int status, bool flush);
 
+/* ---- streams created with fopencookie (the daemon's socket-backed output streams, SimFS files) ----
+ * fork() duplicates a process's stdio buffers; a child that then calls exit() (not _exit()) flushes its copies, so bytes the
+ * parent has buffered reach their destination twice.  The emulated fork shares memory with its parent, so that effect is
+ * reproduced explicitly: exit() in a not-yet-exec'ed child emits the pending output of every cookie stream of the parent
+ * through the stream's own write function and leaves the parent's buffer as it is. */
+typedef struct CookieStream { FILE *f; void *cookie; cookie_write_function_t *wr; SimProc *owner; } CookieStream;
+static CookieStream cstreams[512]; static int ncstreams;
+FILE *__real_fopencookie(void *, const char *, cookie_io_functions_t);
+FILE *__wrap_fopencookie(void *cookie, const char *mode, cookie_io_functions_t io) {
+    FILE *f = __real_fopencookie(cookie, mode, io);
+    if (f && cur && io.write) {
+        int k = -1; for (int i = 0; i < ncstreams; i++) if (!cstreams[i].f) { k = i; break; }
+        if (k < 0 && ncstreams < 512) k = ncstreams++;
+        if (k >= 0) cstreams[k] = (CookieStream){ f, cookie, io.write, img_identity(cur->p) };
+    }
+    return f;
+}
+int __real_fclose(FILE *);
+int __wrap_fclose(FILE *f) {
+    for (int i = 0; i < ncstreams; i++) if (cstreams[i].f == f) cstreams[i].f = NULL;
+    return __real_fclose(f);
+}
+static void child_exit_flushes_copies(SimProc *child) {
+    SimProc *par = img_identity(child);
+    for (int i = 0; i < ncstreams; i++) {
+        CookieStream *c = &cstreams[i];
+        if (!c->f || c->owner != par) continue;
+        size_t pend = (size_t)(c->f->_IO_write_ptr - c->f->_IO_write_base);
+        if (c->f->_IO_write_base && pend > 0 && pend < (1u << 24)) { S.fork_dup_flushes++; c->wr(c->cookie, c->f->_IO_write_base, pend); }
+    }
+}
+
 static void task_trampoline(void) {
     __sanitizer_finish_switch_fiber(NULL, &sched_bottom, &sched_size);
     SimTask *t = cur;
@@ -368,6 +400,7 @@ static void vfork_resume_parent(SimProc *ch, int rv);
 static void proc_exit(SimProc *p, int status, bool flush) {
     if (!p->alive) return;
     if (p->in_vfork_child) {
+        if (flush) child_exit_flushes_copies(p);
         /* child of an emulated vfork dies before exec: give the stack back to the parent */
         p->alive = false; p->zombie = true; p->status = status; p->zombie_at = now_us;
         proc_close_all(p);
@@ -892,9 +925,13 @@ static int poll_fill(SimProc *pr, struct pollfd *p, int n) {
         if (p[i].fd < 0) continue;
         SimFile *f = p[i].fd < SIM_MAXFD ? pr->fds[p[i].fd] : NULL;
         if (!f) { p[i].revents = POLLNVAL; k++; continue; }
-        if ((p[i].events & POLLIN) && file_readable(f)) p[i].revents |= POLLIN;
+        if (f->kind == F_PIPE_R) {   /* a pipe whose writers are gone reports hang-up; "readable" only while bytes are left */
+            if ((p[i].events & POLLIN) && f->pipe->buf.len > 0) p[i].revents |= POLLIN;
+            if (f->pipe->writers == 0) p[i].revents |= POLLHUP;
+        } else if ((p[i].events & POLLIN) && file_readable(f)) p[i].revents |= POLLIN;
         if (f->kind == F_STREAM && f->peer_closed && f->rx.len == 0) p[i].revents |= POLLHUP;
         if ((p[i].events & POLLOUT) && (f->kind == F_STREAM || f->kind == F_PIPE_W)) p[i].revents |= POLLOUT;
+        if (f->kind == F_PIPE_W && f->pipe->readers == 0) p[i].revents |= POLLERR;
         if (p[i].revents) k++;
     }
     return k;
